@@ -54,16 +54,18 @@ def Shape (T : FST σ) (rs : σ → String) (G : IG) (r : IRule) : Prop :=
   (∃ a b f, IRule.prod a b f ∈ G.rules ∧ ∃ p ∈ T.states, ∃ q ∈ T.states,
     r = IRule.prod (tripleStr rs p a q) (tripleStr rs p b q) f) ∨
   (∃ a t, IRule.end_ a t ∈ G.rules ∧ ∃ p ∈ T.states, ∃ q ∈ T.states,
-    r = IRule.dup (tripleStr rs p a q) (tripleStr rs p t q) "T") ∨
+    r = IRule.dup (tripleStr rs p a q) (terTripleStr rs p t q) "T") ∨
   (∃ t ∈ G.ruleTerminals, ∃ p ∈ T.states, ∃ q ∈ T.states, ∃ r' ∈ T.states,
-    r = IRule.dup (tripleStr rs p t q) (tripleStr rs p "epsilon" r') (tripleStr rs r' t q) ∨
-    r = IRule.dup (tripleStr rs p t q) (tripleStr rs p t r') (tripleStr rs r' "epsilon" q)) ∨
+    r = IRule.dup (terTripleStr rs p t q) (terTripleStr rs p "epsilon" r')
+      (terTripleStr rs r' t q) ∨
+    r = IRule.dup (terTripleStr rs p t q) (terTripleStr rs p t r')
+      (terTripleStr rs r' "epsilon" q)) ∨
   (∃ p ∈ T.states, ∃ q ∈ T.states, ∃ r' ∈ T.states,
-    r = IRule.dup (tripleStr rs p "epsilon" q) (tripleStr rs p "epsilon" r')
-      (tripleStr rs r' "epsilon" q)) ∨
-  (∃ e ∈ T.delta, r = IRule.end_ (tripleStr rs e.1 (e.2.1.getD "epsilon") e.2.2.1)
+    r = IRule.dup (terTripleStr rs p "epsilon" q) (terTripleStr rs p "epsilon" r')
+      (terTripleStr rs r' "epsilon" q)) ∨
+  (∃ e ∈ T.delta, r = IRule.end_ (terTripleStr rs e.1 (e.2.1.getD "epsilon") e.2.2.1)
       (" ".intercalate e.2.2.2)) ∨
-  (∃ p ∈ T.states, r = IRule.end_ (tripleStr rs p "epsilon" p) "epsilon") ∨
+  (∃ p ∈ T.states, r = IRule.end_ (terTripleStr rs p "epsilon" p) "epsilon") ∨
   (∃ f ∈ T.finals, ∃ s ∈ T.starts, r = IRule.dup "S" (tripleStr rs s "S" f) "T")
 
 theorem mem_consBlock (T : FST σ) (rs : σ → String) (G : IG) (r : IRule) :
@@ -92,14 +94,14 @@ theorem mem_gBlock (T : FST σ) (rs : σ → String) (G : IG) (r : IRule) :
       | .prod a b f => T.states.flatMap fun p => T.states.map fun q =>
           IRule.prod (tripleStr rs p a q) (tripleStr rs p b q) f
       | .end_ a t => T.states.flatMap fun p => T.states.map fun q =>
-          IRule.dup (tripleStr rs p a q) (tripleStr rs p t q) "T"
+          IRule.dup (tripleStr rs p a q) (terTripleStr rs p t q) "T"
       | .cons _ _ _ => []) ↔
     (∃ a b c, IRule.dup a b c ∈ G.rules ∧ ∃ p ∈ T.states, ∃ q ∈ T.states, ∃ r' ∈ T.states,
       r = IRule.dup (tripleStr rs p a q) (tripleStr rs p b r') (tripleStr rs r' c q)) ∨
     (∃ a b f, IRule.prod a b f ∈ G.rules ∧ ∃ p ∈ T.states, ∃ q ∈ T.states,
       r = IRule.prod (tripleStr rs p a q) (tripleStr rs p b q) f) ∨
     (∃ a t, IRule.end_ a t ∈ G.rules ∧ ∃ p ∈ T.states, ∃ q ∈ T.states,
-      r = IRule.dup (tripleStr rs p a q) (tripleStr rs p t q) "T") := by
+      r = IRule.dup (tripleStr rs p a q) (terTripleStr rs p t q) "T") := by
   simp only [List.mem_flatMap]
   constructor
   · rintro ⟨r0, hr0, h⟩
@@ -143,9 +145,9 @@ theorem mem_interRules (T : FST σ) (rs : σ → String) (G : IG) (r : IRule) :
 theorem mem_end (T : FST σ) (rs : σ → String) (G : IG) (x t : String) :
     IRule.end_ x t ∈ interRules T rs G ↔
       (x = "T" ∧ t = "epsilon") ∨
-      (∃ e ∈ T.delta, x = tripleStr rs e.1 (e.2.1.getD "epsilon") e.2.2.1 ∧
+      (∃ e ∈ T.delta, x = terTripleStr rs e.1 (e.2.1.getD "epsilon") e.2.2.1 ∧
         t = " ".intercalate e.2.2.2) ∨
-      (∃ p ∈ T.states, x = tripleStr rs p "epsilon" p ∧ t = "epsilon") := by
+      (∃ p ∈ T.states, x = terTripleStr rs p "epsilon" p ∧ t = "epsilon") := by
   rw [mem_interRules]
   unfold Shape
   simp only [IRule.end_.injEq, reduceCtorEq, and_false, exists_false, false_or, or_false]
@@ -181,13 +183,15 @@ theorem mem_dup (T : FST σ) (rs : σ → String) (G : IG) (x y z : String) :
       (∃ a b c, IRule.dup a b c ∈ G.rules ∧ ∃ p ∈ T.states, ∃ q ∈ T.states, ∃ r' ∈ T.states,
         x = tripleStr rs p a q ∧ y = tripleStr rs p b r' ∧ z = tripleStr rs r' c q) ∨
       (∃ a t, IRule.end_ a t ∈ G.rules ∧ ∃ p ∈ T.states, ∃ q ∈ T.states,
-        x = tripleStr rs p a q ∧ y = tripleStr rs p t q ∧ z = "T") ∨
+        x = tripleStr rs p a q ∧ y = terTripleStr rs p t q ∧ z = "T") ∨
       (∃ t ∈ G.ruleTerminals, ∃ p ∈ T.states, ∃ q ∈ T.states, ∃ r' ∈ T.states,
-        (x = tripleStr rs p t q ∧ y = tripleStr rs p "epsilon" r' ∧ z = tripleStr rs r' t q) ∨
-        (x = tripleStr rs p t q ∧ y = tripleStr rs p t r' ∧ z = tripleStr rs r' "epsilon" q)) ∨
+        (x = terTripleStr rs p t q ∧ y = terTripleStr rs p "epsilon" r' ∧
+          z = terTripleStr rs r' t q) ∨
+        (x = terTripleStr rs p t q ∧ y = terTripleStr rs p t r' ∧
+          z = terTripleStr rs r' "epsilon" q)) ∨
       (∃ p ∈ T.states, ∃ q ∈ T.states, ∃ r' ∈ T.states,
-        x = tripleStr rs p "epsilon" q ∧ y = tripleStr rs p "epsilon" r' ∧
-          z = tripleStr rs r' "epsilon" q) ∨
+        x = terTripleStr rs p "epsilon" q ∧ y = terTripleStr rs p "epsilon" r' ∧
+          z = terTripleStr rs r' "epsilon" q) ∨
       (∃ f ∈ T.finals, ∃ s ∈ T.starts, x = "S" ∧ y = tripleStr rs s "S" f ∧ z = "T") := by
   rw [mem_interRules]
   unfold Shape
@@ -201,11 +205,12 @@ structure Hyp (T : FST σ) (rs : σ → String) (G : IG) : Prop where
   wf : T.WF
   tripleInj : ∀ p x q p' x' q', p ∈ T.states → q ∈ T.states → p' ∈ T.states → q' ∈ T.states →
     tripleStr rs p x q = tripleStr rs p' x' q' → p = p' ∧ x = x' ∧ q = q'
-  tripleNotS : ∀ p x q, tripleStr rs p x q ≠ "S"
-  tripleNotT : ∀ p x q, tripleStr rs p x q ≠ "T"
-  disj : ∀ x ∈ "epsilon" :: G.ruleTerminals, x ∉ G.nonTerminals
+  terTripleInj : ∀ p x q p' x' q', p ∈ T.states → q ∈ T.states → p' ∈ T.states → q' ∈ T.states →
+    terTripleStr rs p x q = terTripleStr rs p' x' q' → p = p' ∧ x = x' ∧ q = q'
+  tripleNeTer : ∀ p x q p' x' q', tripleStr rs p x q ≠ terTripleStr rs p' x' q'
+  tripleNotS : ∀ p x q, tripleStr rs p x q ≠ "S" ∧ terTripleStr rs p x q ≠ "S"
+  tripleNotT : ∀ p x q, tripleStr rs p x q ≠ "T" ∧ terTripleStr rs p x q ≠ "T"
   inNotEps : ∀ t ∈ T.delta, t.2.1 ≠ some "epsilon"
-  inNotNT : ∀ t ∈ T.delta, ∀ a, t.2.1 = some a → a ∉ G.nonTerminals
 
 /-- the grammar before `removeUseless` -/
 def pre (T : FST σ) (rs : σ → String) (G : IG) : IG := { rules := interRules T rs G, start := "S" }
@@ -219,119 +224,104 @@ theorem mem_ruleTerminals_end {G : IG} {a t : String} (h : IRule.end_ a t ∈ G.
   rw [List.mem_eraseDups]
   exact List.mem_flatMap.mpr ⟨_, h, by simp⟩
 
-theorem nt_dup {G : IG} {a b c : String} (h : IRule.dup a b c ∈ G.rules) :
-    a ∈ G.nonTerminals ∧ b ∈ G.nonTerminals ∧ c ∈ G.nonTerminals :=
-  ⟨Lem.mem_nonTerminals_of_rule h (by simp), Lem.mem_nonTerminals_of_rule h (by simp),
-    Lem.mem_nonTerminals_of_rule h (by simp)⟩
-
-theorem nt_prod {G : IG} {a b f : String} (h : IRule.prod a b f ∈ G.rules) :
-    a ∈ G.nonTerminals ∧ b ∈ G.nonTerminals :=
-  ⟨Lem.mem_nonTerminals_of_rule h (by simp), Lem.mem_nonTerminals_of_rule h (by simp)⟩
-
-theorem nt_cons {G : IG} {a b f : String} (h : IRule.cons f a b ∈ G.rules) :
-    a ∈ G.nonTerminals ∧ b ∈ G.nonTerminals :=
-  ⟨Lem.mem_nonTerminals_of_rule h (by simp), Lem.mem_nonTerminals_of_rule h (by simp)⟩
-
-theorem nt_end {G : IG} {a t : String} (h : IRule.end_ a t ∈ G.rules) : a ∈ G.nonTerminals :=
-  Lem.mem_nonTerminals_of_rule h (by simp)
-
-/-- what a derivation of a triple means -/
-def Sem (T : FST σ) (G : IG) (p : σ) (X : String) (q : σ) (st : List String) : Prop :=
-  (X ∈ G.nonTerminals → ∃ w, G.Gen X st w ∧ ∃ o, T.Path p w o q) ∧
-  (X ∉ G.nonTerminals → ∃ o, T.Path p (word X) o q)
-
+/-- what a derivation of a triple means: (a) for the triple of a non-terminal,
+(b)/(c) for the triple of a terminal / of "epsilon" -/
+def Sem (T : FST σ) (rs : σ → String) (G : IG) (x : String) (st : List String) : Prop :=
+  ∀ p X q, p ∈ T.states → q ∈ T.states →
+    (x = tripleStr rs p X q → ∃ w, G.Gen X st w ∧ ∃ o, T.Path p w o q) ∧
+    (x = terTripleStr rs p X q → ∃ o, T.Path p (word X) o q)
 
 theorem word_eps : word "epsilon" = [] := by simp [word]
 
 theorem word_ne {t : String} (h : t ≠ "epsilon") : word t = [t] := by simp [word, h]
 
 theorem sound {T : FST σ} {rs : σ → String} {G : IG} (h : Hyp T rs G) {x : String}
-    {st : List String} (hd : (pre T rs G).Derivable x st) :
-    ∀ p X q, p ∈ T.states → q ∈ T.states → x = tripleStr rs p X q → Sem T G p X q st := by
-  have heps : "epsilon" ∉ G.nonTerminals := h.disj _ List.mem_cons_self
+    {st : List String} (hd : (pre T rs G).Derivable x st) : Sem T rs G x st := by
   induction hd with
   | @end_ a t st hr =>
-    intro p X q hp hq hx
-    subst hx
+    intro p X q hp hq
     rcases (mem_end T rs G _ _).mp hr with ⟨h1, _⟩ | ⟨e, he, h1, _⟩ | ⟨p', hp', h1, _⟩
-    · exact absurd h1 (h.tripleNotT _ _ _)
-    · obtain ⟨rfl, rfl, rfl⟩ := h.tripleInj _ _ _ _ _ _ hp hq (h.wf.src _ he) (h.wf.dst _ he) h1
+    · subst h1
+      exact ⟨fun hx => absurd hx.symm (h.tripleNotT _ _ _).1,
+        fun hx => absurd hx.symm (h.tripleNotT _ _ _).2⟩
+    · subst h1
+      refine ⟨fun hx => absurd hx.symm (h.tripleNeTer _ _ _ _ _ _), fun hx => ?_⟩
+      obtain ⟨rfl, rfl, rfl⟩ :=
+        h.terTripleInj _ _ _ _ _ _ (h.wf.src _ he) (h.wf.dst _ he) hp hq hx
       obtain ⟨e1, a, e2, o⟩ := e
       cases a with
       | none =>
-        refine ⟨fun hX => absurd hX heps, fun _ => ⟨o, ?_⟩⟩
+        refine ⟨o, ?_⟩
         show T.Path e1 (word "epsilon") o e2
         rw [word_eps]
         exact FST.Lem.path_eps_one he
       | some a =>
         have hne : a ≠ "epsilon" := fun hh => h.inNotEps _ he (by simp [hh])
-        refine ⟨fun hX => absurd hX (h.inNotNT _ he a rfl), fun _ => ⟨o, ?_⟩⟩
+        refine ⟨o, ?_⟩
         show T.Path e1 (word a) o e2
         rw [word_ne hne]
         exact FST.Lem.path_read_one he
-    · obtain ⟨rfl, rfl, rfl⟩ := h.tripleInj _ _ _ _ _ _ hp hq hp' hp' h1
-      refine ⟨fun hX => absurd hX heps, fun _ => ⟨[], ?_⟩⟩
+    · subst h1
+      refine ⟨fun hx => absurd hx.symm (h.tripleNeTer _ _ _ _ _ _), fun hx => ?_⟩
+      obtain ⟨rfl, rfl, rfl⟩ := h.terTripleInj _ _ _ _ _ _ hp' hp' hp hq hx
+      refine ⟨[], ?_⟩
       rw [word_eps]
       exact Path.nil _
   | @prod a b f st hr hd ih =>
-    intro p X q hp hq hx
-    subst hx
-    obtain ⟨a', b', hr', p', hp', q', hq', h1, rfl⟩ := (mem_prod T rs G _ _ _).mp hr
-    obtain ⟨rfl, rfl, rfl⟩ := h.tripleInj _ _ _ _ _ _ hp hq hp' hq' h1
-    have hnt := nt_prod hr'
-    obtain ⟨w, hg, hpath⟩ := (ih p b' q hp hq rfl).1 hnt.2
-    exact ⟨fun _ => ⟨w, Gen.prod hr' hg, hpath⟩, fun hn => absurd hnt.1 hn⟩
+    intro p X q hp hq
+    obtain ⟨a', b', hr', p', hp', q', hq', rfl, rfl⟩ := (mem_prod T rs G _ _ _).mp hr
+    refine ⟨fun hx => ?_, fun hx => absurd hx (h.tripleNeTer _ _ _ _ _ _)⟩
+    obtain ⟨rfl, rfl, rfl⟩ := h.tripleInj _ _ _ _ _ _ hp' hq' hp hq hx
+    obtain ⟨w, hg, hpath⟩ := (ih p' b' q' hp hq).1 rfl
+    exact ⟨w, Gen.prod hr' hg, hpath⟩
   | @cons f a b st hr hd ih =>
-    intro p X q hp hq hx
-    subst hx
-    obtain ⟨a', b', hr', p', hp', q', hq', h1, rfl⟩ := (mem_cons T rs G _ _ _).mp hr
-    obtain ⟨rfl, rfl, rfl⟩ := h.tripleInj _ _ _ _ _ _ hp hq hp' hq' h1
-    have hnt := nt_cons hr'
-    obtain ⟨w, hg, hpath⟩ := (ih p b' q hp hq rfl).1 hnt.2
-    exact ⟨fun _ => ⟨w, Gen.cons hr' hg, hpath⟩, fun hn => absurd hnt.1 hn⟩
+    intro p X q hp hq
+    obtain ⟨a', b', hr', p', hp', q', hq', rfl, rfl⟩ := (mem_cons T rs G _ _ _).mp hr
+    refine ⟨fun hx => ?_, fun hx => absurd hx (h.tripleNeTer _ _ _ _ _ _)⟩
+    obtain ⟨rfl, rfl, rfl⟩ := h.tripleInj _ _ _ _ _ _ hp' hq' hp hq hx
+    obtain ⟨w, hg, hpath⟩ := (ih p' b' q' hp hq).1 rfl
+    exact ⟨w, Gen.cons hr' hg, hpath⟩
   | @dup a b c st hr hd1 hd2 ih1 ih2 =>
-    intro p X q hp hq hx
-    subst hx
+    intro p X q hp hq
     rcases (mem_dup T rs G _ _ _).mp hr with
-      ⟨a', b', c', hr', p', hp', q', hq', r', hr'', h1, rfl, rfl⟩ |
-      ⟨a', t, hr', p', hp', q', hq', h1, rfl, rfl⟩ |
-      ⟨t, ht, p', hp', q', hq', r', hr'', (⟨h1, rfl, rfl⟩ | ⟨h1, rfl, rfl⟩)⟩ |
-      ⟨p', hp', q', hq', r', hr'', h1, rfl, rfl⟩ | ⟨f, hf, s, hs, h1, _, _⟩
-    · obtain ⟨rfl, rfl, rfl⟩ := h.tripleInj _ _ _ _ _ _ hp hq hp' hq' h1
-      have hnt := nt_dup hr'
-      obtain ⟨u, hgu, o1, hp1⟩ := (ih1 p b' r' hp hr'' rfl).1 hnt.2.1
-      obtain ⟨v, hgv, o2, hp2⟩ := (ih2 r' c' q hr'' hq rfl).1 hnt.2.2
-      exact ⟨fun _ => ⟨u ++ v, Gen.dup hr' hgu hgv, _, FST.Lem.path_append hp1 hp2⟩,
-        fun hn => absurd hnt.1 hn⟩
-    · obtain ⟨rfl, rfl, rfl⟩ := h.tripleInj _ _ _ _ _ _ hp hq hp' hq' h1
-      have ht : t ∉ G.nonTerminals :=
-        h.disj t (List.mem_cons_of_mem _ (mem_ruleTerminals_end hr'))
-      obtain ⟨o, hpo⟩ := (ih1 p t q hp hq rfl).2 ht
-      exact ⟨fun _ => ⟨word t, Gen.end_ hr', o, hpo⟩, fun hn => absurd (nt_end hr') hn⟩
-    · obtain ⟨rfl, rfl, rfl⟩ := h.tripleInj _ _ _ _ _ _ hp hq hp' hq' h1
-      have ht' : X ∉ G.nonTerminals := h.disj X (List.mem_cons_of_mem _ ht)
-      obtain ⟨o1, hp1⟩ := (ih1 p "epsilon" r' hp hr'' rfl).2 heps
-      obtain ⟨o2, hp2⟩ := (ih2 r' X q hr'' hq rfl).2 ht'
+      ⟨a', b', c', hr', p', hp', q', hq', r', hr'', rfl, rfl, rfl⟩ |
+      ⟨a', t, hr', p', hp', q', hq', rfl, rfl, rfl⟩ |
+      ⟨t, ht, p', hp', q', hq', r', hr'', (⟨rfl, rfl, rfl⟩ | ⟨rfl, rfl, rfl⟩)⟩ |
+      ⟨p', hp', q', hq', r', hr'', rfl, rfl, rfl⟩ | ⟨f, hf, s, hs, rfl, _, _⟩
+    · refine ⟨fun hx => ?_, fun hx => absurd hx (h.tripleNeTer _ _ _ _ _ _)⟩
+      obtain ⟨rfl, rfl, rfl⟩ := h.tripleInj _ _ _ _ _ _ hp' hq' hp hq hx
+      obtain ⟨u, hgu, o1, hp1⟩ := (ih1 p' b' r' hp hr'').1 rfl
+      obtain ⟨v, hgv, o2, hp2⟩ := (ih2 r' c' q' hr'' hq).1 rfl
+      exact ⟨u ++ v, Gen.dup hr' hgu hgv, _, FST.Lem.path_append hp1 hp2⟩
+    · refine ⟨fun hx => ?_, fun hx => absurd hx (h.tripleNeTer _ _ _ _ _ _)⟩
+      obtain ⟨rfl, rfl, rfl⟩ := h.tripleInj _ _ _ _ _ _ hp' hq' hp hq hx
+      obtain ⟨o, hpo⟩ := (ih1 p' t q' hp hq).2 rfl
+      exact ⟨word t, Gen.end_ hr', o, hpo⟩
+    · refine ⟨fun hx => absurd hx.symm (h.tripleNeTer _ _ _ _ _ _), fun hx => ?_⟩
+      obtain ⟨rfl, rfl, rfl⟩ := h.terTripleInj _ _ _ _ _ _ hp' hq' hp hq hx
+      obtain ⟨o1, hp1⟩ := (ih1 p' "epsilon" r' hp hr'').2 rfl
+      obtain ⟨o2, hp2⟩ := (ih2 r' t q' hr'' hq).2 rfl
       have := FST.Lem.path_append hp1 hp2
       rw [word_eps, List.nil_append] at this
-      exact ⟨fun hX => absurd hX ht', fun _ => ⟨_, this⟩⟩
-    · obtain ⟨rfl, rfl, rfl⟩ := h.tripleInj _ _ _ _ _ _ hp hq hp' hq' h1
-      have ht' : X ∉ G.nonTerminals := h.disj X (List.mem_cons_of_mem _ ht)
-      obtain ⟨o1, hp1⟩ := (ih1 p X r' hp hr'' rfl).2 ht'
-      obtain ⟨o2, hp2⟩ := (ih2 r' "epsilon" q hr'' hq rfl).2 heps
+      exact ⟨_, this⟩
+    · refine ⟨fun hx => absurd hx.symm (h.tripleNeTer _ _ _ _ _ _), fun hx => ?_⟩
+      obtain ⟨rfl, rfl, rfl⟩ := h.terTripleInj _ _ _ _ _ _ hp' hq' hp hq hx
+      obtain ⟨o1, hp1⟩ := (ih1 p' t r' hp hr'').2 rfl
+      obtain ⟨o2, hp2⟩ := (ih2 r' "epsilon" q' hr'' hq).2 rfl
       have := FST.Lem.path_append hp1 hp2
       rw [word_eps, List.append_nil] at this
-      exact ⟨fun hX => absurd hX ht', fun _ => ⟨_, this⟩⟩
-    · obtain ⟨rfl, rfl, rfl⟩ := h.tripleInj _ _ _ _ _ _ hp hq hp' hq' h1
-      obtain ⟨o1, hp1⟩ := (ih1 p "epsilon" r' hp hr'' rfl).2 heps
-      obtain ⟨o2, hp2⟩ := (ih2 r' "epsilon" q hr'' hq rfl).2 heps
+      exact ⟨_, this⟩
+    · refine ⟨fun hx => absurd hx.symm (h.tripleNeTer _ _ _ _ _ _), fun hx => ?_⟩
+      obtain ⟨rfl, rfl, rfl⟩ := h.terTripleInj _ _ _ _ _ _ hp' hq' hp hq hx
+      obtain ⟨o1, hp1⟩ := (ih1 p' "epsilon" r' hp hr'').2 rfl
+      obtain ⟨o2, hp2⟩ := (ih2 r' "epsilon" q' hr'' hq).2 rfl
       have := FST.Lem.path_append hp1 hp2
       rw [word_eps, List.append_nil] at this
-      refine ⟨fun hX => absurd hX heps, fun _ => ⟨o1 ++ o2, ?_⟩⟩
+      refine ⟨o1 ++ o2, ?_⟩
       rw [word_eps]
       exact this
-    · exact absurd h1 (h.tripleNotS _ _ _)
-
+    · exact ⟨fun hx => absurd hx.symm (h.tripleNotS _ _ _).1,
+        fun hx => absurd hx.symm (h.tripleNotS _ _ _).2⟩
 
 /-! ### completeness -/
 
@@ -341,13 +331,13 @@ theorem derivable_T (T : FST σ) (rs : σ → String) (G : IG) (st : List String
 
 theorem derivable_edge {T : FST σ} (rs : σ → String) (G : IG) {p r : σ} {a : Option String}
     {o : List String} (he : (p, a, r, o) ∈ T.delta) (st : List String) :
-    (pre T rs G).Derivable (tripleStr rs p (a.getD "epsilon") r) st :=
+    (pre T rs G).Derivable (terTripleStr rs p (a.getD "epsilon") r) st :=
   Derivable.end_ (t := " ".intercalate o)
     ((mem_end T rs G _ _).mpr (Or.inr (Or.inl ⟨_, he, rfl, rfl⟩)))
 
 theorem complete_eps {T : FST σ} (rs : σ → String) (G : IG) (hT : T.WF) {p q : σ}
     {i o : List String} (hp : T.Path p i o q) (hi : i = []) (hps : p ∈ T.states)
-    (st : List String) : (pre T rs G).Derivable (tripleStr rs p "epsilon" q) st := by
+    (st : List String) : (pre T rs G).Derivable (terTripleStr rs p "epsilon" q) st := by
   induction hp with
   | nil q =>
     exact Derivable.end_ (t := "epsilon")
@@ -362,7 +352,7 @@ theorem complete_eps {T : FST σ} (rs : σ → String) (G : IG) (hT : T.WF) {p q
 theorem complete_term {T : FST σ} (rs : σ → String) (G : IG) (hT : T.WF) {t : String}
     (ht : t ∈ G.ruleTerminals) {p q : σ} {i o : List String} (hp : T.Path p i o q)
     (hi : i = [t]) (hps : p ∈ T.states) (st : List String) :
-    (pre T rs G).Derivable (tripleStr rs p t q) st := by
+    (pre T rs G).Derivable (terTripleStr rs p t q) st := by
   induction hp with
   | nil q => cases hi
   | @eps q r s i o o' he hrest ih =>
@@ -383,7 +373,7 @@ theorem complete_term {T : FST σ} (rs : σ → String) (G : IG) (hT : T.WF) {t 
 theorem complete_word {T : FST σ} (rs : σ → String) (G : IG) (hT : T.WF) {t : String}
     (ht : t ∈ "epsilon" :: G.ruleTerminals) {p q : σ} {o : List String}
     (hp : T.Path p (word t) o q) (hps : p ∈ T.states) (st : List String) :
-    (pre T rs G).Derivable (tripleStr rs p t q) st := by
+    (pre T rs G).Derivable (terTripleStr rs p t q) st := by
   by_cases he : t = "epsilon"
   · subst he
     exact complete_eps rs G hT hp word_eps hps st
@@ -422,13 +412,11 @@ theorem complete_gen {T : FST σ} (rs : σ → String) (G : IG) (hT : T.WF) {A :
 
 /-! ### the top level -/
 
-theorem pre_nonEmpty {T : FST σ} {rs : σ → String} {G : IG} (h : Hyp T rs G)
-    (hstart : G.start = "S") :
+theorem pre_nonEmpty {T : FST σ} {rs : σ → String} {G : IG} (h : Hyp T rs G) :
     (pre T rs G).NonEmpty ↔ ∃ w, G.Gen "S" [] w ∧ ∃ o, T.Rel w o := by
   constructor
   · intro hd
     unfold NonEmpty at hd
-    have hS : "S" ∈ G.nonTerminals := hstart ▸ Lem.start_mem_nonTerminals G
     generalize hx : (pre T rs G).start = x at hd
     have hx' : x = "S" := hx.symm
     cases hd with
@@ -436,12 +424,12 @@ theorem pre_nonEmpty {T : FST σ} {rs : σ → String} {G : IG} (h : Hyp T rs G)
       subst hx'
       rcases (mem_end T rs G _ _).mp hr with ⟨h1, _⟩ | ⟨e, he, h1, _⟩ | ⟨p', hp', h1, _⟩
       · simp at h1
-      · exact absurd h1.symm (h.tripleNotS _ _ _)
-      · exact absurd h1.symm (h.tripleNotS _ _ _)
+      · exact absurd h1.symm (h.tripleNotS _ _ _).2
+      · exact absurd h1.symm (h.tripleNotS _ _ _).2
     | @prod _ b f _ hr _ =>
       subst hx'
       obtain ⟨a', b', hr', p', hp', q', hq', h1, _⟩ := (mem_prod T rs G _ _ _).mp hr
-      exact absurd h1.symm (h.tripleNotS _ _ _)
+      exact absurd h1.symm (h.tripleNotS _ _ _).1
     | @dup _ b c _ hr hd1 hd2 =>
       subst hx'
       rcases (mem_dup T rs G _ _ _).mp hr with
@@ -449,13 +437,13 @@ theorem pre_nonEmpty {T : FST σ} {rs : σ → String} {G : IG} (h : Hyp T rs G)
         ⟨a', t, hr', p', hp', q', hq', h1, _, _⟩ |
         ⟨t, ht, p', hp', q', hq', r', hr'', (⟨h1, _, _⟩ | ⟨h1, _, _⟩)⟩ |
         ⟨p', hp', q', hq', r', hr'', h1, _, _⟩ | ⟨f, hf, s, hs, _, rfl, _⟩
-      · exact absurd h1.symm (h.tripleNotS _ _ _)
-      · exact absurd h1.symm (h.tripleNotS _ _ _)
-      · exact absurd h1.symm (h.tripleNotS _ _ _)
-      · exact absurd h1.symm (h.tripleNotS _ _ _)
-      · exact absurd h1.symm (h.tripleNotS _ _ _)
+      · exact absurd h1.symm (h.tripleNotS _ _ _).1
+      · exact absurd h1.symm (h.tripleNotS _ _ _).1
+      · exact absurd h1.symm (h.tripleNotS _ _ _).2
+      · exact absurd h1.symm (h.tripleNotS _ _ _).2
+      · exact absurd h1.symm (h.tripleNotS _ _ _).2
       · obtain ⟨w, hg, o, hp⟩ := (sound h hd1 s "S" f (h.wf.starts_sub _ hs)
-          (h.wf.finals_sub _ hf) rfl).1 hS
+          (h.wf.finals_sub _ hf)).1 rfl
         exact ⟨w, hg, o, s, hs, f, hf, hp⟩
   · rintro ⟨w, hg, o, s, hs, f, hf, hp⟩
     exact Derivable.dup ((mem_dup T rs G _ _ _).mpr (Or.inr (Or.inr (Or.inr (Or.inr
